@@ -52,7 +52,7 @@ RULE = ("case = up to 14 episodes (single / multi / double / revert / under_dir 
 REQUIRED_BINS = ["ep_single", "ep_multi", "ep_double", "ep_revert", "ep_under_dir", "ep_tx_coincide", "ep_traffic", "ep_abort_stage", "ep_tx_near",
                  "converged_episode", "change_inside_tx_body", "write_aborted_at_command", "write_aborted_before_data",
                  "write_aborted_by_dir", "write_aborted_in_stp_cycle", "change_while_write_in_flight", "change_same_cycle_as_tx_start",
-                 "change_between_tx_start_and_txcmd_accept", "tx_waits_for_regwrite", "both_registers_pending", "with_rst_pin",
+                 "change_between_tx_start_and_txcmd_accept", "regwrite_startable_while_txcmd_pending", "tx_waits_for_regwrite", "both_registers_pending", "with_rst_pin",
                  "reg_data_nxt_throttled", "change_of_0x04_while_0x0a_in_flight", "revert_before_data_byte"]
 REQUIRED_EVENTS = ["writes_committed", "writes_value_checked", "convergence_checks", "tx_packets_completed", "progress_cycles_watched",
                    "control_changes"]
@@ -62,8 +62,9 @@ ASSUMPTIONS = ["eventually = within 300 bus-free cycles (convergence) / 150 bus-
                "start-up counter (_CYCLES_1_MILLISECONDS) scaled to 10-60 cycles in the cases with a rst pin"]
 
 M_LIVE = "regwrite_uses_live_address_and_data_after_request_changed"
-M_DEADLOCK = "regwrite_started_while_txcmd_pending_blocks_both"
-KNOWN = (M_LIVE, M_DEADLOCK)
+M_TXCMD = "regwrite_started_while_txcmd_pending"
+KNOWN = (M_LIVE, M_TXCMD)
+LIVE_KINDS = ("regwrite_blocked", "registers_not_converged", "regwrite_value_never_requested", "regwrite_to_register_0")
 
 CONVERGE_BOUND = 300
 PROGRESS_BOUND = 150
@@ -115,6 +116,12 @@ def _run_case(rng, tier, res):
     st = {"dead": False, "tx_wait": 0, "wr_wait": 0, "tx_pending_since": None, "tx_first_accept": False,
           "idle_bus": 0, "n_commits": 0, "prev_ctl": None, "last_tx_rise": None, "checkpoints": []}
 
+    raw = []                                 # (generic mechanism, cycle, detail): classified after the run
+    tx_rises = []                            # cycles in which tx_valid was first sampled high
+
+    def V(mech, k, detail):
+        raw.append((mech, k, detail))
+
     def pending_now():
         return phy.regs.get(0x04) != req[0x04][-1] or phy.regs.get(0x0A) != req[0x0A][-1]
 
@@ -143,6 +150,7 @@ def _run_case(rng, tier, res):
             if st["tx_pending_since"] is None:
                 st["tx_pending_since"] = k
                 st["tx_first_accept"] = False
+                tx_rises.append(k)
             if ready:
                 st["tx_wait"] = 0
                 st["tx_first_accept"] = True
@@ -170,13 +178,10 @@ def _run_case(rng, tier, res):
                          else "register difference not written for %d bus-free cycles" % st["wr_wait"],
                          st["tx_pending_since"], st["tx_first_accept"], pending_now(), fmt(phy.regs.get(0x04)), fmt(req[0x04][-1]),
                          fmt(phy.regs.get(0x0A)), fmt(req[0x0A][-1]), st["idle_bus"], change_cycles[-4:], phy.mode))
-            if tx_blocked and valid and not st["tx_first_accept"] and pending_now() and st["idle_bus"] >= 50:
-                res.violation(M_DEADLOCK, detail)
-            elif tx_blocked:
-                res.violation("tx_blocked", detail)
+            if tx_blocked:
+                V("tx_blocked", k, detail)
             else:
-                chg = [c for c in change_cycles if c > max(st["checkpoints"] or [0])]
-                res.violation(M_LIVE if len(chg) >= 2 else "regwrite_blocked", detail + "; control changes since the last converged checkpoint: %s" % chg[:6])
+                V("regwrite_blocked", k, detail)
             st["dead"] = True
 
     # ------------------------------------------------------------------ stimulus helpers
@@ -290,7 +295,7 @@ def _run_case(rng, tier, res):
                   "control changes %s, commits %s"
                   % (ep["index"], ep["pattern"], why, fmt(phy.regs.get(0x04)), fmt(req[0x04][-1]), fmt(phy.regs.get(0x0A)), fmt(req[0x0A][-1]),
                      lo, [(c, hex(v)) for c, v in phy.cmd_seen if c > lo][-6:], chg[:6], [(w[0], hex(w[1]), hex(w[2])) for w in phy.reg_writes if w[0] > lo][-6:]))
-        res.violation(M_LIVE if len(chg) >= 2 else "registers_not_converged", detail)
+        V("registers_not_converged", k, detail)
 
     # ------------------------------------------------------------------ the session
     def driver():
@@ -403,8 +408,9 @@ def _run_case(rng, tier, res):
     if b.hit_max_cycles:
         res.violation("harness_max_cycles", "session did not finish in %d cycles" % b.max_cycles)
         return
-    judge_writes(res, phy, req, regs_hist, change_cycles, st)
-    judge_bus(res, phy, utmi_accepts, st, req, regs_hist, change_cycles)
+    judge_writes(res, V, phy, req, regs_hist, change_cycles, st)
+    judge_bus(res, V, phy, utmi_accepts, st, req, regs_hist, change_cycles)
+    classify(res, raw, phy, req, regs_hist, change_cycles, st, tx_rises, startup, b.cycle)
     res.nontrivial = bool((res.bins.get("write_aborted_by_dir") or res.bins.get("change_while_write_in_flight")) and res.bins.get("converged_episode", 0) >= 3)
 
 
@@ -412,7 +418,7 @@ def fmt(v):
     return "None" if v is None else "%#04x" % v
 
 
-def judge_writes(res, phy, req, regs_hist, change_cycles, st):
+def judge_writes(res, V, phy, req, regs_hist, change_cycles, st):
     """Every committed write must address 0x04 / 0x0A with a value that register's inputs had while the write was wanted."""
     n = len(req[0x04])
     prev_commit = {}
@@ -439,9 +445,9 @@ def judge_writes(res, phy, req, regs_hist, change_cycles, st):
         lo_cp = max([c for c in st["checkpoints"] if c <= first_seen] or [0])
         chg_ep = [c for c in change_cycles if lo_cp < c <= kc]
         if addr not in (0x04, 0x0A):
-            res.violation(M_LIVE if (len(chg_ep) >= 2 and addr == 0) else "regwrite_to_unrequested_register",
-                          "write of %#04x to register %#04x committed at cycle %d (command first seen %d); control changes since the last converged checkpoint (%d): %s"
-                          % (value, addr, kc, first_seen, lo_cp, chg_ep[:6]))
+            V("regwrite_to_register_0" if addr == 0 else "regwrite_to_unrequested_register", kc,
+              "write of %#04x to register %#04x committed at cycle %d (command first seen %d); control changes since the last converged checkpoint (%d): %s"
+              % (value, addr, kc, first_seen, lo_cp, chg_ep[:6]))
             continue
         res.event("writes_value_checked")
         lo = min(first_seen, n - 1)
@@ -457,7 +463,7 @@ def judge_writes(res, phy, req, regs_hist, change_cycles, st):
         if info.get("data_cycle") and any(c < info["data_cycle"] for c in chg_in_flight) and req[addr][min(kc, n - 1)] == regs_hist[addr][max(1, lo - 1)]:
             res.bin("revert_before_data_byte")
         if value not in allowed:
-            res.violation(M_LIVE if len(chg_ep) >= 2 else "regwrite_value_never_requested",
+            V("regwrite_value_never_requested", kc,
                           "register %#04x written with %#04x at cycle %d (command first seen %d, data byte taken at %s); values requested for it since cycle %d: %s; "
                           "other register requested %s; control changes since the last converged checkpoint (%d): %s"
                           % (addr, value, kc, first_seen, info.get("data_cycle"), lo, sorted(hex(v) for v in allowed if v is not None),
@@ -465,7 +471,7 @@ def judge_writes(res, phy, req, regs_hist, change_cycles, st):
         prev_commit[addr] = kc
 
 
-def judge_bus(res, phy, utmi_accepts, st, req, regs_hist, change_cycles):
+def judge_bus(res, V, phy, utmi_accepts, st, req, regs_hist, change_cycles):
     n = len(req[0x04])
     # bins about the relation of control changes and transmission starts
     for p in phy.tx_packets:
@@ -474,17 +480,7 @@ def judge_bus(res, phy, utmi_accepts, st, req, regs_hist, change_cycles):
                 res.bin("change_between_tx_start_and_txcmd_accept")
     # protocol irregularities of the link
     for (k, name, info) in phy.anomalies:
-        kk = min(k, n - 1)
-        pending = regs_hist[0x04][kk] != req[0x04][kk] or regs_hist[0x0A][kk] != req[0x0A][kk]
-        first = info.get("first") if isinstance(info, dict) else None
-        is_tx_cmd = bool(first and (first[1] >> 6) == 1)
-        if name in ("command_withdrawn", "nxt_answered_by_idle_bus") and is_tx_cmd and pending:
-            # the transmit command disappeared from the bus because a register write was started while it was pending
-            res.bin("change_between_tx_start_and_txcmd_accept")
-            res.violation(M_DEADLOCK, "cycle %d: transmit command %#04x (on the bus since cycle %d) %s while a register difference is pending (control changes at %s)"
-                          % (k, first[1], first[0], name, [c for c in change_cycles if c >= first[0] - 12][:4]))
-        else:
-            res.violation("bus_" + name, "cycle %d: %s %s" % (k, name, info))
+        V("bus_" + name, k, "cycle %d: %s %s" % (k, name, info))
     if st["dead"]:
         return
     # conservation of transmit bytes
@@ -492,6 +488,53 @@ def judge_bus(res, phy, utmi_accepts, st, req, regs_hist, change_cycles):
     for p in phy.tx_packets:
         consumed += len(p["bytes"]) + (1 if (p["cmd"] & 0x0F) else 0)
     if phy.pkt is not None:
-        res.violation("transmit_without_stp", "PHY still inside a transmit packet at the end of the session (cmd %#04x)" % phy.pkt["cmd"])
+        V("transmit_without_stp", n - 1, "PHY still inside a transmit packet at the end of the session (cmd %#04x)" % phy.pkt["cmd"])
     elif consumed != len(utmi_accepts):
-        res.violation("tx_bytes_lost_or_invented", "UTMI side had %d bytes accepted, PHY consumed %d in %d transmit packets" % (len(utmi_accepts), consumed, len(phy.tx_packets)))
+        V("tx_bytes_lost_or_invented", n - 1, "UTMI side had %d bytes accepted, PHY consumed %d in %d transmit packets" % (len(utmi_accepts), consumed, len(phy.tx_packets)))
+
+
+def classify(res, raw, phy, req, regs_hist, change_cycles, st, tx_rises, startup, last_cycle):
+    """Give every raw violation its final mechanism name.
+
+    M_TXCMD: only if, in the same episode, something made a register write startable (control change, end of the previous
+             register write, end of the previous transmit packet, end of the start-up delay) in a cycle in which a transmission
+             was pending whose TXCMD the PHY had not accepted yet, and a register difference was pending at that moment.
+    M_LIVE:  only for wrong value / register 0 / not converged, and only if >= 2 control-change cycles fell into the episode.
+    """
+    n = len(req[0x04])
+    cps = st["checkpoints"]
+
+    def pending_at(c):
+        c = max(1, min(c, n - 1))
+        return regs_hist[0x04][c] != req[0x04][c] or regs_hist[0x0A][c] != req[0x0A][c]
+
+    accepts = sorted([p["accept"] for p in phy.tx_packets] + ([phy.pkt["accept"]] if phy.pkt else []))
+    events = set(change_cycles)
+    for w in phy.reg_writes:
+        events.update((w[0], w[0] + 1, w[0] + 2))
+    for p in phy.tx_packets:
+        if p["stp_cycle"]:
+            events.update((p["stp_cycle"] + 1, p["stp_cycle"] + 2))
+    if startup:
+        events.update(range(startup, startup + 5))
+    triggers = []
+    for t0 in tx_rises:
+        a = min([x for x in accepts if x >= t0] or [last_cycle])
+        for e in sorted(events):
+            if t0 - 1 <= e <= a + 1 and (pending_at(e) or pending_at(e + 1)):
+                triggers.append(e)
+                break
+    for (mech, k, detail) in raw:
+        lo = max([c for c in cps if c <= k] or [0])
+        hi = min([c for c in cps if c > k] or [last_cycle + 1])
+        final = mech
+        if mech.startswith("harness"):
+            pass
+        elif any(lo < t <= hi for t in triggers):
+            final = M_TXCMD
+            detail += " [a register write became startable at cycle(s) %s while a TXCMD was pending]" % [t for t in triggers if lo < t <= hi][:3]
+        elif mech in LIVE_KINDS and len([c for c in change_cycles if lo < c <= k]) >= 2:
+            final = M_LIVE
+        res.violation(final, detail)
+    for e in set(triggers):
+        res.bin("regwrite_startable_while_txcmd_pending")
